@@ -169,25 +169,71 @@ def run(world, tier, info, only=None):
                     if st[0] == "=" and st[2][0] == "use" and st[2][1][0] == "k" and "int" in st[2][1][1]:
                         got = int(st[2][1][1]["int"])
             ck.ob("R4", "to_fst_bits/" + v, got == ch, site(s, t["l"]), "vcd %s is written as %r (found %r)" % (v, chr(ch), chr(got) if got is not None else None))
+    # every byte appended to the result: which loop it sits in, and where its value comes from
     lps = flow.loops_over(f)
-    okorder = False
-    detail = "loop not recognised"
+    loops = {}
     for head, t, some, none, item in lps:
         ad = []
         r, pth = flow.access_path(f, t["args"][0], extra_transparent=re.compile(r"Iterator::(rev|skip|take|step_by|filter|map|enumerate)$"), adapters=ad)
         names = [a.split("::")[-1] for a in ad]
+        ok = False
+        detail = "loop not recognised"
         if r[0] == "agg" and str(r[1]).endswith("range::Range"):
             d = f.blocks[r[2]]["s"][r[3]]
             lo, hi = d[2][2]
             rlo = flow.access_path(f, lo)
             rhi = flow.access_path(f, hi)
-            okorder = names == ["rev"] and rlo[0] == ("const", "0") and rhi[0][0] == "call" and rhi[0][1].endswith("Value::width")
+            ok = names == ["rev"] and rlo[0] == ("const", "0") and rhi[0][0] == "call" and rhi[0][1].endswith("Value::width")
             detail = "iterates (%s..%s) with adapters %s" % (flow.fmt_path(rlo, f), flow.fmt_path(rhi, f), names)
-            # the index passed to to_vcd_value is the loop variable
-            for bi, tt in f.calls("^" + re.escape(VCD) + "$"):
+        loops[head] = (set(f.reach_from(some, avoid=[head])), ok, detail)
+    pushes = f.calls(VEC_PUSH)
+    ck.floor("R4", "bytes appended in to_fst_bits", len(pushes), 1)
+    want_char = {(0, 0): "0", (0, 1): "1", (1, 0): "x", (1, 1): "z"}   # (mask bit, payload bit), fixed by R3
+    for n, (bi, t) in enumerate(sorted(pushes, key=lambda x: x[1]["l"])):
+        inloop = [h for h, (body, ok, detail) in loops.items() if bi in body]
+        okl = bool(inloop) and all(loops[h][1] for h in inloop)
+        ck.ob("R4", "to_fst_bits/msb-first@%d" % (n + 1), okl, site(s, t["l"]),
+              "bits are pushed from width-1 down to 0 (MSB first): " + (loops[inloop[0]][2] if inloop else "not inside a loop"))
+        head = inloop[0] if inloop else None
+        a = t["args"][1]
+        d = f.def_of(a[1][0]) if a[0] != "k" else None
+        rv = f.rvalue_at(d) if d and d[0] == "s" else None
+        if a[0] != "k" and len(f.defs.get(a[1][0], [])) > 1:
+            # the four constants selected by the vcd::Value switch
+            vcalls = [(bb, tt) for bb, tt in f.calls("^" + re.escape(VCD) + "$") if head is not None and bb in loops[head][0]]
+            okv = bool(vcalls)
+            for bb, tt in vcalls:
                 ri, pi = flow.access_path(f, tt["args"][1])
-                ck.ob("R4", "to_fst_bits/index-is-loop-var", ri[0] == "call" and ri[2] == head and pi == ("Some", "0"), site(s, tt["l"]), "to_vcd_value is given the loop index")
-    ck.ob("R4", "to_fst_bits/msb-first", okorder, site(s), "bits are pushed from width-1 down to 0 (MSB first): " + detail)
+                okv = okv and ri[0] == "call" and ri[2] == head and pi == ("Some", "0")
+            ck.ob("R4", "to_fst_bits/index-is-loop-var@%d" % (n + 1), okv, site(s, t["l"]), "the character is chosen from to_vcd_value(i) with i the loop index")
+        elif rv is not None and rv[0] == "use" and rv[1][0] != "k" and any(isinstance(q, list) and q[0] == "i" for q in rv[1][1][1]):
+            # a lookup table indexed by a code built from the mask and payload bits
+            tab = rv[1][1]
+            td = f.def_of(tab[0])
+            trv = f.rvalue_at(td) if td and td[0] == "s" else None
+            data = trv[1][1].get("bytes") if trv and trv[0] == "use" and trv[1][0] == "k" else None
+            idx_local = [q[1] for q in tab[1] if isinstance(q, list) and q[0] == "i"][0]
+            tree = f.describe(["c", [idx_local, []]], 16)
+            if data is None:
+                ck.ob("R4", "to_fst_bits/table@%d" % (n + 1), None, site(s, t["l"]), "the character comes from a table whose contents are not visible")
+                continue
+            bad = []
+            undecidable = False
+            for (m, p), ch in sorted(want_char.items()):
+                v = _eval_bits(tree, m, p)
+                if v is None or not (0 <= v < len(data)):
+                    undecidable = True
+                    break
+                if data[v] != ch:
+                    bad.append("(mask=%d,payload=%d) -> %r, expected %r" % (m, p, data[v], ch))
+            if undecidable:
+                ck.ob("R4", "to_fst_bits/table@%d" % (n + 1), None, site(s, t["l"]), "the table index is not a recognised function of the mask and payload bits")
+            else:
+                ck.ob("R4", "to_fst_bits/table@%d" % (n + 1), not bad, site(s, t["l"]),
+                      "the lookup table %r agrees with to_vcd_value's encoding" % data if not bad else
+                      "the lookup table %r maps %s: X and Z are confused for values that take this path" % (data, "; ".join(bad)))
+        else:
+            ck.ob("R4", "to_fst_bits/source@%d" % (n + 1), None, site(s, t["l"]), "the appended byte comes from an unrecognised computation")
     # VcdValueIter::next
     s = w.fns[ITER]
     f = Fn(w.mir(ITER))
@@ -219,7 +265,31 @@ def run(world, tier, info, only=None):
                 r, pth = flow.access_path(f, rv[1])
                 ok = (r[0] == "const" and str(r[1]) == "0") or (pth and pth[-1] == fld)
                 ck.ob("R5", "cosim_get/%s@%d" % (fld, _nthw(f, fld, bi, si)), bool(ok), site(s, st[3]), "%s is copied from the converted %s (or zero-filled); found %s" % (fld, fld, flow.fmt_path((r, pth), f)))
-        ck.floor("R5", "aval/bval copies in cosim_get", nw, 4)
+        # the caller's buffer is overwritten completely: the loop runs over all of `value`, every iteration stores both words
+        an = {f.name(i): i for i in range(1, f.nargs + 1)}
+        vloops = []
+        for head, lt, some, none, item in flow.loops_over(f):
+            ad = []
+            r, pth = flow.access_path(f, lt["args"][0], extra_transparent=re.compile(r"Iterator::(rev|skip|take|step_by|filter|map|enumerate|zip|chain|take_while|skip_while)$"), adapters=ad)
+            if r == ("arg", an.get("value")):
+                vloops.append((head, lt, some, [a.split("::")[-1] for a in ad]))
+        ck.floor("R5", "loops over the caller's buffer in cosim_get", len(vloops), 1)
+        for head, lt, some, names in vloops:
+            short = [a for a in names if a in ("zip", "take", "skip", "step_by", "filter", "take_while", "skip_while")]
+            ck.ob("R5", "cosim_get/whole-buffer-visited", not short, site(s, lt["l"]),
+                  "every element of the caller's buffer is visited" if not short else
+                  "the loop over the caller's buffer is shortened by %s: elements beyond the converted value keep whatever the caller's variable held "
+                  "(stale upper words of an earlier, wider read)" % short)
+            wa = {b for b, si, st in flow.field_writes(f, r"value::SvLogicVecVal$", "aval")}
+            wb = {b for b, si, st in flow.field_writes(f, r"value::SvLogicVecVal$", "bval")}
+            ww = set()
+            for bi, b in enumerate(f.blocks):
+                for st in b["s"]:
+                    if st[0] == "=" and st[1][1] == ["*"] and "SvLogicVecVal" in f.ty(st[1][0]):
+                        ww.add(bi)
+            ea = flow.escapes(f, some, wa | ww, stops=[head])
+            eb = flow.escapes(f, some, wb | ww, stops=[head])
+            ck.ob("R5", "cosim_get/every-element-written", not ea and not eb and bool(wa | ww), site(s, lt["l"]), "every iteration stores aval and bval of its element")
         conv = [t for _, t in f.calls("^" + re.escape(ENC) + "$|Into<.*>>::into$")]
         ck.ob("R5", "cosim_get/uses-encoder", bool(conv), site(s), "cosim_get converts through From<&Value> for Vec<SvLogicVecVal>")
     else:
@@ -252,6 +322,21 @@ def run(world, tier, info, only=None):
                 ck.ob("R5", "dump_all_vars/read/" + fld, got == (fld,), site(s, t["l"]), "read_native_value's argument %d is this entry's %s (found %s)" % (idx, fld, got))
             r, pth = flow.access_path(f, t["args"][2])
             ck.ob("R5", "dump_all_vars/read/use_4state", r == ("arg", 3), site(s, t["l"]), "the 4-state flag is the caller's")
+        # every variable is recorded on every dump, unless a skip compares the WHOLE storage (payload and, under 4-state, mask)
+        for head, lt, some, none, item in lps:
+            esc = flow.escapes(f, some, [b for b, _ in cvs], stops=[head])
+            if not esc:
+                ck.ob("R5", "dump_all_vars/every-variable-recorded", True, site(s, lt["l"]), "every iteration records its variable")
+                continue
+            covers = False
+            for bi, t in f.calls(r"core::slice::(raw::)?from_raw_parts$"):
+                pv = f.prov(t["args"][1], depth=20)
+                if any(x[0] == "arg" and x[1] == 3 for x in pv):
+                    covers = True
+            ck.ob("R5", "dump_all_vars/every-variable-recorded", covers, site(s, lt["l"]),
+                  "a variable is skipped only when its whole storage (payload and 4-state mask) is unchanged" if covers else
+                  "an iteration can skip recording its variable, and the storage it compares does not depend on use_4state: with 4-state storage the "
+                  "X/Z mask half (the second native_bytes) is not looked at, so a change of known/unknown status alone is never dumped")
         for bi, t in cvs:
             got = entry_field(t["args"][1])
             ck.ob("R5", "dump_all_vars/report/handle", got == ("handle",), site(s, t["l"]), "the value is reported under this entry's handle (found %s)" % (got,))
@@ -434,3 +519,50 @@ def _word_order_decode(ck, f, s):
         ck.ob("R2", "decode/loop@%d/high-word-first" % n, ok, site(s, t["l"]),
               "the slice is consumed in reverse while the accumulators shift left, so element 0 ends in the low word (adapters=%s shl=%d shr=%d)" % (names, shl, shr))
     ck.floor("R2", "decoder loops over the input slice", n, 2)
+
+
+def _eval_bits(tree, m, p):
+    """value of a small integer expression with `mask_xz` = m, `payload` = p (single bits) and every loop index = 0"""
+    if tree is None:
+        return None
+    k = tree[0]
+    if k == "const":
+        try:
+            return int(tree[1])
+        except (TypeError, ValueError):
+            return None
+    if k == "bin":
+        a = _eval_bits(tree[2], m, p)
+        b = _eval_bits(tree[3], m, p)
+        if a is None or b is None:
+            return None
+        op = tree[1]
+        if op in ("Shl", "ShlUnchecked"):
+            return a << b
+        if op in ("Shr", "ShrUnchecked"):
+            return a >> b
+        if op == "BitAnd":
+            return a & b
+        if op == "BitOr":
+            return a | b
+        if op == "BitXor":
+            return a ^ b
+        if op in ("Add", "AddUnchecked", "AddWithOverflow"):
+            return a + b
+        if op in ("Mul", "MulUnchecked", "MulWithOverflow"):
+            return a * b
+        return None
+    if k == "proj":
+        names = [q[1] for q in tree[2] if q[0] == "f"]
+        if names and names[-1] == "payload":
+            return p
+        if names and names[-1] == "mask_xz":
+            return m
+        if names and names[-1] == "0" and tree[1][0] == "bin":
+            return _eval_bits(tree[1], m, p)
+        if tree[1][0] == "call" and "next" in (tree[1][1] or ""):
+            return 0   # loop index
+        return None
+    if k == "call" and "next" in (tree[1] or ""):
+        return 0
+    return None
